@@ -7,21 +7,17 @@ from . import casemodel as cm
 from .common import RUNTEST, TESTCASE
 
 EXPLANATION = (
-    "Typestate analysis of testtools.runtest.RunTest by abstract interpretation (ttsa.absint): the "
-    "runner's own code (_run_prepared_result, _run_core, _run_cleanups, _run_user, _got_user_exception, "
-    "_raise_force_fail_error, inlined through the receiver's MRO with method values bound at the call "
-    "site, recursion closed by summaries) is executed over a finite domain -- sentinel / user value, "
-    "emptiness of the recorded-exception list, event counters {0,1,2+} for startTest, stopTest and "
-    "outcomes -- while every piece of user code is symbolic: it returns a non-sentinel value or raises. "
-    "R-ONE-OUTCOME / R-BRACKET: every abstract exit state that is not a framework-exception path has "
-    "exactly one startTest, one outcome and one stopTest, in that order; on framework-exception paths "
-    "the bracket still holds and no second outcome is possible; no user exception escapes. "
-    "R-SENTINEL-IFF-RECORDED: _got_user_exception returns the sentinel only after recording. "
-    "R-CATCH-ALL: user code is invoked under a handler for BaseException that reaches the recorder. "
-    "R-INTERRUPT-PROPAGATES: on a run in which stages raise exception kinds, a recorded non-Exception is re-raised whatever later stages raise. R-RERAISE: the "
-    "no-handler arm reports through last_resort and re-raises the same exception inside the bracket. "
-    "R-RUN-BRACKET: RunTest.run pairs startTestRun/stopTestRun exactly when it created the result; "
-    "results are wrapped in ExtendedToOriginalDecorator; TestCase.run resets before building a fresh runner."
+    'TestCase.run is followed as written (ttsa.rules.casemodel): the TestCase is built by its real constructor; run, '
+    "RunTest, the handler table, the result adapter and everything they create are interpreted by ttsa.objects; the user's "
+    'setUp / test / tearDown / cleanup are scripts that return or raise exceptions of every kind, the result logs every '
+    'call. Over 43 combinations of stage outcomes (also an interrupted cleanup): R-BRACKET startTest first, stopTest last, '
+    'once each; R-ONE-OUTCOME exactly one outcome, a success only if nothing raised; R-CATCH-ALL no exception of user code '
+    'leaves run() except a non-Exception one; R-INTERRUPT-PROPAGATES a KeyboardInterrupt / SystemExit raised by any stage '
+    'is reported as an error, the later stages still run, and it is re-raised after stopTest whatever they raise. Further '
+    'scenarios: unittest.skip markers, a 2.6-style result, MultipleExceptions of two and of none (R-SENTINEL-IFF-RECORDED, '
+    'known finding), a result whose outcome method raises (R-RERAISE: stopTest still delivered, the error not swallowed, no '
+    'second outcome), run() without a result (R-RUN-BRACKET: the default result is started and stopped around the test, '
+    'also when it is interrupted), the same case run twice.'
 )
 
 
